@@ -511,6 +511,9 @@ func (fsSuite) Run(raw json.RawMessage) []Step {
 	if c.Kind == "path" {
 		return runPathCase(c)
 	}
+	if c.Backend == "dirfs" {
+		return runDirfsCase(c)
+	}
 	w := newWorld(c.Backend)
 	if w.dir != "" {
 		defer os.RemoveAll(filepath.Dir(w.dir))
@@ -770,6 +773,9 @@ func genFsSetup(r *Rng) []fsOp {
 func (fsSuite) Gen(r *Rng, i int, tier string) any {
 	if i%50 == 49 {
 		return genPathCase(r)
+	}
+	if i%10 == 7 {
+		return genDirfsCase(r)
 	}
 	backend := "memfs"
 	if r.Chance(45) {
